@@ -3,7 +3,7 @@
     (internal/hsrv/handlers.go), so two requests pair exactly when the decoded
     elements are the same bytes.  The expected outcome of a pair of requests
     is computed by RUNNING the broker model on the two admissions. *)
-From CRS Require Import Lib.Bytes Lib.Pct Model.Broker Judge.Common.
+From CRS Require Import Lib.Bytes Lib.Pct Model.Broker Model.HttpIds Judge.Common.
 Open Scope N_scope.
 
 Record hcase := mkh {
@@ -16,15 +16,8 @@ Record hcase := mkh {
   second_ended : bool       (* the second request's response had ended by itself *)
 }.
 
-Definition http_key (raw : bytes) : key := KUni (pct_decode raw).
-Definition desc (d : dir) (k : key) (a : N) : sdesc :=
-  {| sd_dir := d; sd_key := k; sd_addr := a; sd_wk := WFlusher; sd_wfail := None; sd_ffail := None |}.
-
-(** what the broker model makes of the two admissions *)
-Definition model_pairs (c : hcase) : bool :=
-  let d1 := if first_is_in c then DIn else DOut in
-  let obs := snd (run [OAdmit 1 (desc d1 (http_key (raw_first c)) 1); OAdmit 2 (desc (other d1) (http_key (raw_second c)) 2)]) in
-  existsb (fun o => existsb (N.eqb 2) (o_att o)) obs.
+(** what the broker model makes of the two admissions (Model/HttpIds.v) *)
+Definition model_pairs (c : hcase) : bool := http_pairs (raw_first c) (raw_second c) (first_is_in c).
 
 Definition judge (c : hcase) : verdict :=
   first_fail [
